@@ -491,7 +491,7 @@ func run(c *vf.Ctx) {
 		_ = p
 		pa := world.NewParty(world.NewPrivacyIdentity(), config.Store{})
 		pb := world.NewParty(world.NewPrivacyIdentity(), config.Store{})
-		sb := pb.SessionWith(pa)
+		_ = pb.SessionWith(pa) // makes the sender known to the receiver
 		hseq++
 		h := fmt.Sprintf("t%d", hseq)
 		events = append(events, map[string]any{"ev": "reset", "h": h, "binding": "FrameV1.Unseal/signed"})
@@ -513,7 +513,16 @@ func run(c *vf.Ctx) {
 				panic(err)
 			}
 			f.SetTTL(ttl)
-			got := f.Unseal(sb) == nil
+			if rng.Intn(12) == 0 {
+				// the receiver handles a "no encryption keys" error ping of the sender (router/ping_error.go): the
+				// session's keys go, what it has accepted from the sender must not
+				_ = pb.St.SetEncryptionSession(pa.ID.IP, nil)
+				events = append(events, map[string]any{"ev": "nokeys", "h": h})
+				c.Distinct("nokeys|signed")
+			}
+			// the router looks the session up for every arriving frame
+			sess := pb.St.GetSession(pa.ID.IP)
+			got := sess != nil && f.Unseal(sess) == nil
 			c.Eval(1)
 			events = append(events, map[string]any{"ev": "tcheck", "h": h, "t": t, "ok": got})
 			f.ReturnToPool()
@@ -553,6 +562,9 @@ func run(c *vf.Ctx) {
 		}
 		if ev["ev"] == "ownsend" {
 			kind = "own-send"
+		}
+		if ev["ev"] == "nokeys" {
+			kind = "no-keys"
 		}
 		c.Violation(vf.Key("trace", binding, kind),
 			fmt.Sprintf("%s: trace line %d (%v) is not allowed by SeqWindow_Trace after history of %d deliveries", binding, rejectAt, ev, len(hist)-1),
